@@ -24,7 +24,7 @@ ORACLES = {
         'emit::determine_binop_plan': ['incan::binop_plan'], 'emit::emit_binop_token': ['incan::binop_plan'],
         '*': ['core::py_mod_i64_impl', 'core::py_floor_div_i64_impl', 'stdlib::py_mod_i64', 'stdlib::py_floor_div_i64', 'stdlib::py_mod',
               'stdlib::py_floor_div', 'stdlib::py_div', 'core::py_mod_f64_impl', 'stdlib::py_mod_f64', 'stdlib::py_floor_div_f64',
-              'incan::binop_plan'],
+              'incan::binop_plan', 'incan::emit_division'],
     },
     'C05': {
         'core::str_len': ['core::str_char_at', 'core::str_slice'],
